@@ -10,6 +10,9 @@ budget = sys.argv[4] if len(sys.argv) > 4 else ""   # empty: the quick check exa
 base = "/tmp/sens_" + name
 shutil.rmtree(base, ignore_errors=True); os.makedirs(base)
 wt = base + "/repo"
+# the checks are taken from the last commit of /verif, not from the working files (which may be in the middle of an edit)
+vdir = base + "/verif"; os.makedirs(vdir)
+subprocess.run("git -C /verif archive HEAD | tar -x -C " + vdir, shell=True, check=True)
 subprocess.run(["git", "-C", "/repo", "worktree", "add", "-q", "--detach", wt, "HEAD"], check=True)
 try:
     if change.startswith("revert:"):
@@ -23,7 +26,7 @@ try:
         env["VERIF_BUDGET_S"] = budget; env["VERIF_MAXRUNS"] = "0"
     tier = os.environ.get("SENS_TIER", "quick")
     for prop in props:
-        r = subprocess.run(["/verif/check", prop, tier], capture_output=True, text=True, env=env)
+        r = subprocess.run([vdir + "/check", prop, tier], capture_output=True, text=True, env=env)
         lines = [l for l in r.stdout.split("\n") if l.startswith(("VIOLATION", "  class=", "KNOWN", "HARNESS", prop + " "))]
         print("SENS %s %s exit=%d" % (name, prop, r.returncode))
         for l in lines[:8] + [l for l in lines[8:] if l.startswith("HARNESS")][:4]:
